@@ -244,6 +244,66 @@ theorem specToks_sgrs (colour : Bool) (level : Nat) (cs : Chunks) :
       · exact ih1 s hs
       · exact ih2 s hs
 
+/-! ### several appenders in one process -/
+
+theorem builderOf_eq (it : PlanItem) : builderOf it = { target := it.target, ttyOnly := it.ttyOnly } := by
+  rcases it with ⟨t, b, o⟩
+  cases o <;> rfl
+
+/-- the lazy cell is empty or holds what the environment says -/
+def Proc.Coherent (env : Env) (p : Proc) : Prop :=
+  p.colorCell = none ∨ p.colorCell = some (colorMode env)
+
+theorem derefColorMode_coherent (env : Env) (p : Proc) (h : p.Coherent env) :
+    (p.derefColorMode env).1 = colorMode env ∧ (p.derefColorMode env).2.Coherent env := by
+  unfold Proc.derefColorMode
+  rcases h with h | h <;> rw [h]
+  · exact ⟨rfl, Or.inr rfl⟩
+  · exact ⟨rfl, Or.inr h⟩
+
+/-- what `build` yields for an item when the colour mode is read straight from the environment -/
+def builtOf (u : Bool) (g : Global) (it : PlanItem) : Built :=
+  { target := it.target
+    kind := writerKind (colorMode g.env) (g.isatty it.target)
+    doWrite := doWriteWith u (writerKind (colorMode g.env) (g.isatty it.target)) (g.isatty it.target) it.ttyOnly }
+
+theorem buildAllWith_eq (u : Bool) (g : Global) (items : List PlanItem) :
+    ∀ p : Proc, p.Coherent g.env → (buildAllWith u g p items).1 = items.map (builtOf u g) := by
+  induction items with
+  | nil => intro p _; rfl
+  | cons it its ih =>
+    intro p hp
+    obtain ⟨h1, h2⟩ := derefColorMode_coherent g.env p hp
+    simp only [buildAllWith, buildWith, builderOf_eq, h1, List.map_cons, builtOf]
+    rw [ih _ h2]
+
+theorem setupOf_targetIsatty (g : Global) (it : PlanItem) :
+    (setupOf g it).targetIsatty = g.isatty it.target := by
+  rcases it with ⟨t, b, o⟩
+  cases t <;> rfl
+
+theorem appendBuiltLevels_eq (n : Nat) (u : Bool) (g : Global) (it : PlanItem) (cs : Nat → Chunks)
+    (levels : List Nat) :
+    appendBuiltLevels n (builtOf u g it) cs levels = appendAllWith n u (setupOf g it) cs levels := by
+  induction levels with
+  | nil => rfl
+  | cons l ls ih =>
+    simp only [appendBuiltLevels, appendAllWith, ih]
+    congr 1
+
+theorem appendAllBuilt_eq (n : Nat) (u : Bool) (g : Global) (cs : Nat → Chunks) (levels : List Nat)
+    (items : List PlanItem) :
+    appendAllBuilt n cs levels (items.map (builtOf u g)) =
+      seqStreams (items.map fun it => appendAllWith n u (setupOf g it) cs levels) := by
+  induction items with
+  | nil => rfl
+  | cons it its ih =>
+    simp only [List.map_cons, appendAllBuilt, seqStreams, ih, appendBuiltLevels_eq]
+
+theorem Streams.on_append (t : Target) (a b : Bytes) :
+    (Streams.on t a).append (Streams.on t b) = Streams.on t (a ++ b) := by
+  cases t <;> simp [Streams.on, Streams.append]
+
 /-! ### flags -/
 
 theorem bufLen_ok : bufLen = 12 ∨ bufLen = 13 := by decide
